@@ -38,10 +38,14 @@ pub struct FProg {
     /// flags are stored and loaded Relaxed: they are only visible through the ordering a wake provides
     #[serde(default)]
     pub relaxed_flags: bool,
+    /// no registration at all: the future spawns the waking threads during its first poll and hands each a clone
+    /// of its waker; the only thing ordering a thread's flag store before the re-poll is the wake itself
+    #[serde(default)]
+    pub direct: bool,
 }
 impl FProg {
     pub fn s(&self) -> String {
-        format!("block_on(fut[{}{}{}{}])  ||  {}", if self.use_aw { "AtomicWaker" } else { "waker slot in a Mutex" }, if self.recheck { ", re-check after register" } else { ", no re-check" }, if self.flag_per_waker { ", one flag per waker" } else { "" }, if self.relaxed_flags { ", relaxed flags" } else { "" }, self.wakers.iter().map(|t| t.iter().map(|o| format!("{:?}", o)).collect::<Vec<_>>().join("; ")).collect::<Vec<_>>().join("  ||  "))
+        format!("block_on(fut[{}{}{}{}])  ||  {}", if self.direct { "no registration" } else if self.use_aw { "AtomicWaker" } else { "waker slot in a Mutex" }, if self.recheck { ", re-check after register" } else { ", no re-check" }, if self.flag_per_waker { ", one flag per waker" } else { "" }, if self.relaxed_flags { ", relaxed flags" } else { "" }.to_string() + if self.direct { ", wakers handed out at the first poll" } else { "" }, self.wakers.iter().map(|t| t.iter().map(|o| format!("{:?}", o)).collect::<Vec<_>>().join("; ")).collect::<Vec<_>>().join("  ||  "))
     }
 }
 
@@ -54,13 +58,16 @@ struct St {
     spur_used: bool,
     fut: u8, // 0 load, 1 register, 2 recheck, 3 wait entry, 5 blocked, 4 done
     pcs: Vec<u8>,
+    started: bool,
+    /// direct protocol: which waking threads still hold their waker clone
+    has_waker: u8,
 }
 
 /// returns (can_deadlock, can_complete)
 fn reference(p: &FProg, spurious: bool) -> (bool, bool) {
     let mut seen: HashSet<St> = HashSet::new();
     let need: u8 = if p.flag_per_waker { (1u8 << p.wakers.len()) - 1 } else { 1 };
-    let mut stack = vec![St { flag: 0, registered: false, notified: false, spur_used: false, fut: 0, pcs: vec![0; p.wakers.len()] }];
+    let mut stack = vec![St { flag: 0, registered: false, notified: false, spur_used: false, fut: 0, pcs: vec![0; p.wakers.len()], started: !p.direct, has_waker: 0xff }];
     let (mut dl, mut done) = (false, false);
     while let Some(s) = stack.pop() {
         if !seen.insert(s.clone()) {
@@ -71,7 +78,9 @@ fn reference(p: &FProg, spurious: bool) -> (bool, bool) {
         match s.fut {
             0 => {
                 let mut n = s.clone();
-                n.fut = if s.flag & need == need { 4 } else { 1 };
+                n.started = true;
+                // the direct protocol has nothing to register: Pending right away
+                n.fut = if s.flag & need == need { 4 } else if p.direct { 3 } else { 1 };
                 succ.push(n);
             }
             1 => {
@@ -112,23 +121,33 @@ fn reference(p: &FProg, spurious: bool) -> (bool, bool) {
             _ => {}
         }
         for (t, ops) in p.wakers.iter().enumerate() {
-            if (s.pcs[t] as usize) < ops.len() {
+            if s.started && (s.pcs[t] as usize) < ops.len() {
                 let mut n = s.clone();
                 n.pcs[t] += 1;
                 match ops[s.pcs[t] as usize] {
                     WOp::SetFlag => n.flag |= if p.flag_per_waker { 1 << t } else { 1 },
                     WOp::Wake => {
-                        if s.registered {
+                        if p.direct {
+                            if s.has_waker >> t & 1 == 1 {
+                                n.notified = true;
+                            }
+                        } else if s.registered {
                             n.registered = false;
                             n.notified = true;
                         }
                     }
                     WOp::WakeByRef => {
-                        if s.registered {
+                        if (p.direct && s.has_waker >> t & 1 == 1) || (!p.direct && s.registered) {
                             n.notified = true;
                         }
                     }
-                    WOp::DropWaker => n.registered = false,
+                    WOp::DropWaker => {
+                        if p.direct {
+                            n.has_waker &= !(1 << t);
+                        } else {
+                            n.registered = false;
+                        }
+                    }
                     WOp::Yield => {}
                 }
                 succ.push(n);
@@ -166,11 +185,42 @@ struct Fut {
     s: Arc<Shared>,
     use_aw: bool,
     recheck: bool,
+    /// direct protocol: spawns the waking threads at the first poll
+    direct: Option<(Arc<FProg>, Arc<std::sync::atomic::AtomicUsize>)>,
+    started: bool,
+    handles: Arc<Mutex<Vec<loom::thread::JoinHandle<()>>>>,
 }
 impl Future for Fut {
     type Output = usize;
-    fn poll(self: Pin<&mut Self>, cx: &mut Context<'_>) -> Poll<usize> {
+    fn poll(mut self: Pin<&mut Self>, cx: &mut Context<'_>) -> Poll<usize> {
         self.s.polls.fetch_add(1, SeqCst);
+        if let Some((p, ev)) = self.direct.clone() {
+            if !self.started {
+                self.started = true;
+                for t in 0..p.wakers.len() {
+                    let (s2, p3, e3) = (self.s.clone(), p.clone(), ev.clone());
+                    let mut waker = Some(cx.waker().clone());
+                    let h = loom::thread::spawn(move || {
+                        for op in &p3.wakers[t] {
+                            e3.fetch_add(1, SeqCst);
+                            match op {
+                                WOp::SetFlag => s2.flags[if p3.flag_per_waker { t.min(1) } else { 0 }].store(true, if p3.relaxed_flags { Relaxed } else { Release }),
+                                WOp::Wake | WOp::WakeByRef => {
+                                    if let Some(w) = waker.as_ref() {
+                                        s2.wakes.fetch_add(1, SeqCst);
+                                        w.wake_by_ref();
+                                    }
+                                }
+                                WOp::DropWaker => drop(waker.take()),
+                                WOp::Yield => loom::thread::yield_now(),
+                            }
+                        }
+                    });
+                    self.handles.lock().unwrap().push(h);
+                }
+            }
+            return if self.s.ready() { Poll::Ready(1) } else { Poll::Pending };
+        }
         if self.s.ready() {
             return Poll::Ready(1);
         }
@@ -220,7 +270,8 @@ pub fn run_loom_bounded(p: &FProg, iter_cap: usize, bound: Option<usize>) -> FRu
             let s = Arc::new(Shared { flags: [AtomicBool::new(false), AtomicBool::new(false)], need: if p2.flag_per_waker { p2.wakers.len().min(2) } else { 1 }, relaxed: p2.relaxed_flags, slot: loom::sync::Mutex::new(None), aw: AtomicWaker::new(), polls: Default::default(), wakes: Default::default() });
             let use_aw = p2.use_aw;
             let mut hs = Vec::new();
-            for t in 0..p2.wakers.len() {
+            let handles: Arc<Mutex<Vec<loom::thread::JoinHandle<()>>>> = Arc::new(Mutex::new(Vec::new()));
+            for t in 0..if p2.direct { 0 } else { p2.wakers.len() } {
                 let (s2, p3, e3) = (s.clone(), p2.clone(), e2.clone());
                 hs.push(loom::thread::spawn(move || {
                     for op in &p3.wakers[t] {
@@ -258,13 +309,17 @@ pub fn run_loom_bounded(p: &FProg, iter_cap: usize, bound: Option<usize>) -> FRu
                     }
                 }));
             }
-            let out = block_on(Fut { s: s.clone(), use_aw, recheck: p2.recheck });
+            let out = block_on(Fut { s: s.clone(), use_aw, recheck: p2.recheck, direct: if p2.direct { Some((p2.clone(), e2.clone())) } else { None }, started: false, handles: handles.clone() });
             assert_eq!(out, 1, "block_on returned something else than the future's output");
             r2.fetch_add(1, SeqCst);
             // every poll after the first is preceded by a wake or by the single modelled spurious return
             let ex = s.polls.load(SeqCst) as i64 - s.wakes.load(SeqCst) as i64 - 2;
             x2.fetch_max(ex, SeqCst);
             for h in hs {
+                h.join().unwrap();
+            }
+            let spawned: Vec<_> = std::mem::take(&mut *handles.lock().unwrap());
+            for h in spawned {
                 h.join().unwrap();
             }
             // break the cycle waker -> notify so that nothing is reported as leaked
@@ -359,21 +414,29 @@ fn core() -> &'static Vec<FProg> {
             }
             for l in &lists {
                 for recheck in [true, false] {
-                    v.push(FProg { use_aw, recheck, wakers: vec![l.clone()], flag_per_waker: false, relaxed_flags: false });
+                    v.push(FProg { use_aw, recheck, wakers: vec![l.clone()], flag_per_waker: false, relaxed_flags: false, direct: false });
                 }
             }
             // two waker threads
             // (two wakers cost >= 100 000 iterations each: a handful here, more in the random part of the thorough tier)
             for (a, b) in [(vec![SetFlag, Wake], vec![Wake]), (vec![SetFlag], vec![SetFlag, Wake])] {
-                v.push(FProg { use_aw, recheck: true, wakers: vec![a.clone(), b.clone()], flag_per_waker: false, relaxed_flags: false });
+                v.push(FProg { use_aw, recheck: true, wakers: vec![a.clone(), b.clone()], flag_per_waker: false, relaxed_flags: false, direct: false });
             }
             // two wakers, each with its own relaxed flag: the flags are only visible through the wakes; when the two
             // wakes coalesce into one notification the re-poll must still see both
-            v.push(FProg { use_aw, recheck: true, wakers: vec![vec![SetFlag, Wake], vec![SetFlag, Wake]], flag_per_waker: true, relaxed_flags: true });
-            v.push(FProg { use_aw, recheck: true, wakers: vec![vec![SetFlag, Wake], vec![SetFlag, Wake]], flag_per_waker: true, relaxed_flags: false });
-            v.push(FProg { use_aw, recheck: true, wakers: vec![vec![SetFlag, Wake]], flag_per_waker: false, relaxed_flags: true });
+            v.push(FProg { use_aw, recheck: true, wakers: vec![vec![SetFlag, Wake], vec![SetFlag, Wake]], flag_per_waker: true, relaxed_flags: true, direct: false });
+            v.push(FProg { use_aw, recheck: true, wakers: vec![vec![SetFlag, Wake], vec![SetFlag, Wake]], flag_per_waker: true, relaxed_flags: false, direct: false });
+            v.push(FProg { use_aw, recheck: true, wakers: vec![vec![SetFlag, Wake]], flag_per_waker: false, relaxed_flags: true, direct: false });
             if !use_aw {
-                v.push(FProg { use_aw, recheck: true, wakers: vec![vec![SetFlag, WakeByRef], vec![SetFlag, WakeByRef]], flag_per_waker: true, relaxed_flags: true });
+                // wakers handed out at the first poll (no registration): one and two waking threads, every flag ordering
+                for relaxed_flags in [false, true] {
+                    v.push(FProg { use_aw, recheck: true, wakers: vec![vec![SetFlag, Wake]], flag_per_waker: false, relaxed_flags, direct: true });
+                    v.push(FProg { use_aw, recheck: true, wakers: vec![vec![SetFlag, Wake], vec![SetFlag, Wake]], flag_per_waker: true, relaxed_flags, direct: true });
+                    v.push(FProg { use_aw, recheck: true, wakers: vec![vec![SetFlag, Wake], vec![SetFlag, Wake]], flag_per_waker: false, relaxed_flags, direct: true });
+                    v.push(FProg { use_aw, recheck: true, wakers: vec![vec![Wake, SetFlag, Wake], vec![SetFlag]], flag_per_waker: true, relaxed_flags, direct: true });
+                    v.push(FProg { use_aw, recheck: true, wakers: vec![vec![SetFlag], vec![SetFlag, Wake]], flag_per_waker: true, relaxed_flags, direct: true });
+                }
+                v.push(FProg { use_aw, recheck: true, wakers: vec![vec![SetFlag, WakeByRef], vec![SetFlag, WakeByRef]], flag_per_waker: true, relaxed_flags: true, direct: false });
             }
         }
         v
@@ -397,7 +460,7 @@ pub fn prog_at(seed: u64, idx: usize) -> FProg {
     let n = if rng.chance(1, 8) { 2 } else { 1 };
     let wakers: Vec<Vec<WOp>> = (0..n).map(|_| (0..1 + rng.below(if n == 1 { 4 } else { 2 })).map(|_| *rng.pick(&al)).collect()).collect();
     let two = wakers.len() == 2;
-    FProg { use_aw, recheck: rng.chance(3, 4), wakers, flag_per_waker: two && rng.chance(1, 2), relaxed_flags: rng.chance(1, 3) }
+    FProg { use_aw, recheck: rng.chance(3, 4), wakers, flag_per_waker: two && rng.chance(1, 2), relaxed_flags: rng.chance(1, 3), direct: rng.chance(1, 4) }
 }
 
 pub fn judge(p: &FProg, rec: &mut Rec, tier: u8) {
@@ -409,7 +472,7 @@ pub fn judge(p: &FProg, rec: &mut Rec, tier: u8) {
     // two wakers with one flag each need > 500 000 iterations unbounded: explored with a preemption bound of 2
     // (3 in the thorough tier); only the soundness clauses (no false deadlock, output returned, poll count) are
     // decided for them
-    let bounded = p.flag_per_waker && p.wakers.len() >= 2;
+    let bounded = p.flag_per_waker && p.wakers.len() >= 2 && !p.direct;
     let r = if bounded { run_loom_bounded(p, 500_000, Some(if tier == 0 { 2 } else { 3 })) } else { run_loom(p, if tier == 0 { 500_000 } else { 3_000_000 }) };
     rec.runs = 1;
     rec.iters = r.iters as u64;
